@@ -18,6 +18,8 @@ import (
 	"errors"
 	"fmt"
 	"io"
+	"os"
+	"path/filepath"
 	"regexp"
 	"sort"
 	"strconv"
@@ -1137,6 +1139,7 @@ var runPlan = [][2]string{{"invoke", "standalone"}, {"stream", "standalone"}, {"
 
 func (engine) Run(ci any) lib.Result {
 	c := ci.(*Case)
+	defer markRunning(c)()
 	res := lib.Result{}
 	var obs []RunObs
 	var terms []string
@@ -1247,6 +1250,21 @@ func (engine) Shrink(ci any, stillFails func(any) bool) any {
 		cur = t
 	}
 	return &cur
+}
+
+
+// crash marker: if the implementation kills the process (an unrecovered panic on a goroutine
+// the harness cannot guard, a fatal runtime error), ./check finds fatal.json in the run
+// directory and reports the case as a violation with this replay.
+func markRunning(c any) func() {
+	dir := os.Getenv("VERIF_RUNDIR")
+	if dir == "" {
+		return func() {}
+	}
+	p := filepath.Join(dir, "fatal.json")
+	b, _ := json.Marshal(map[string]any{"case": c, "what": "the process died while this case was running on the implementation"})
+	_ = os.WriteFile(p, b, 0o644)
+	return func() { _ = os.Remove(p) }
 }
 
 func main() { lib.Main(engine{}) }
